@@ -5,20 +5,23 @@ One random scene (volume shape, slab with diagonal tensor material, boundary kin
 magnetic dipoles, a plane source with polarisation, raw FieldDetector / Poynting detector without co-location) is built
 through the public pipeline in its three cyclic orientations; TLC checks b[pi(i)] = a[i] on the final fields and the raw
 detector records of consecutive orientations."""
+import math
 import random
 
 ID = "C08"
 TRACE = ("Trace_AxisPerm", "Trace_AxisPerm.cfg")
 CHUNK = 2
 PARALLEL = 3
+RES = 25e-9
 
 
 def model_check(ctx):
     ctx.mc("AxisPerm", "MC_AxisPerm_q.cfg" if ctx.quick else "MC_AxisPerm_t.cfg",
-           label="3x2x1 (thorough: 3x2x2, 4x3x2, 2x3x1) lattices, every boundary kind per axis, absorbing layer on every open axis, every source entry + dense state, diagonal and full symmetric 3x3 coefficient tensors")
+           label="3x2x1 (thorough: 3x2x2, 4x3x2, 2x3x1) lattices, every boundary kind per axis, per-face absorbing-layer parameters on every open axis, 3 (thorough: all) source entries + dense state, diagonal and full symmetric 3x3 coefficient tensors")
     ctx.mc_negative("AxisPerm", "MC_AxisPerm_neg.cfg")    # layer-loop branch of axis y returns the wrong derivative pair
-    ctx.mc_negative("AxisPerm", "MC_AxisPerm_neg4.cfg")   # tensor relabelling that permutes only the diagonal
+    ctx.mc_negative("AxisPerm", "MC_AxisPerm_neg6.cfg")   # per-face parameter table: the min_y entry reads min_x
     if not ctx.quick:
+        ctx.mc_negative("AxisPerm", "MC_AxisPerm_neg4.cfg")   # tensor relabelling that permutes only the diagonal
         ctx.mc_negative("AxisPerm", "MC_AxisPerm_neg5.cfg")   # yz coupling averaged at the wrong location
         ctx.mc_negative("AxisPerm", "MC_AxisPerm_neg2.cfg")   # curl_y operand order
         ctx.mc_negative("AxisPerm", "MC_AxisPerm_neg3.cfg")   # PEC tangential table of the y faces
@@ -52,6 +55,7 @@ def perm_scene(sc):
     out = dict(sc)
     out["shape"] = pv(sc["shape"])
     out["bounds"] = {f[:4] + face[f[4]]: k for f, k in sc["bounds"].items()}
+    out["faces"] = {f[:4] + face[f[4]]: dict(v) for f, v in sc.get("faces", {}).items()}     # per-face PML parameters travel with the face
     out["slabs"] = [dict(s, lo=pv(s["lo"]), hi=pv(s["hi"]), eps=pt(s["eps"]),
                          sigma=pv(s["sigma"]) if isinstance(s.get("sigma"), list) else s.get("sigma", 0.0)) for s in sc.get("slabs", [])]
     srcs = []
@@ -92,7 +96,7 @@ def _scene(rng, T, full=False):
         r = rng.random()
         if a == plane_axis or r < 0.3:
             kmin = kmax = "pml"
-            shape[a] = max(shape[a], 7)
+            shape[a] = max(shape[a], 8)
             if a != plane_axis and rng.random() < 0.5:
                 kmax = rng.choice(["pec", "pmc"])
         elif r < 0.55:
@@ -100,6 +104,15 @@ def _scene(rng, T, full=False):
         else:
             kmin, kmax = rng.choice(["pec", "pmc"]), rng.choice(["pec", "pmc", "pml"])
         bounds[f"min_{ax}"], bounds[f"max_{ax}"] = kmin, kmax
+    # every absorbing layer gets its OWN parameters: thickness, sigma_end (around the library default for that
+    # thickness), kappa_end, alpha_start - all different from face to face
+    faces = {}
+    for f, k in bounds.items():
+        if k == "pml":
+            th = rng.choice([2, 3])
+            sig_default = 4.0 * math.log(1e6) / (2.0 * 376.730313668 * th * RES)
+            faces[f] = {"thickness": th, "sigma_end": sig_default * rng.uniform(0.4, 1.6), "kappa_end": round(rng.uniform(1.0, 2.5), 3),
+                        "alpha_start": 10 ** rng.uniform(-4, -1.5)}
     lo = [rng.randrange(0, n - 1) for n in shape]
     lo[plane_axis] = rng.randrange(4, shape[plane_axis] - 1)   # plane sources inside anisotropic materials are unsupported
     hi = [rng.randrange(l + 1, n + 1) for l, n in zip(lo, shape)]
@@ -128,7 +141,7 @@ def _scene(rng, T, full=False):
     phi[pa] = plo[pa] + 1
     dets = [{"kind": "field", "name": "fd", "lo": dlo, "hi": dhi, "exact": False, "switch": {"interval": 3}},
             {"kind": "poynting", "name": "pf", "lo": plo, "hi": phi, "axis": pa, "exact": False}]
-    return {"shape": shape, "T": T, "res": 25e-9, "cf": 0.99, "pml": 2, "bounds": bounds, "slabs": [slab], "sources": sources, "detectors": dets}
+    return {"shape": shape, "T": T, "res": RES, "cf": 0.99, "pml": 2, "bounds": bounds, "faces": faces, "slabs": [slab], "sources": sources, "detectors": dets}
 
 
 def gen_cases(ctx):
